@@ -4,7 +4,7 @@ from __future__ import annotations
 import ast
 from typing import Any, Dict, List, Optional, Set, Tuple
 
-from sa import AnalysisError
+from sa import AnalysisError, StructuralViolation
 from sa import fd, lf
 from sa.cf import cfg_of
 from sa.pm import FuncInfo, call_name, norm, self_attr, walk_local_ordered
@@ -34,6 +34,16 @@ def _probe_roles(ctx: Any, g: FuncInfo) -> Dict[str, str]:
             pair = {n.test.left.id, n.test.comparators[0].id}
             if roles.get('now') in pair and len(pair) == 2:
                 roles['next_time'] = (pair - {roles['now']}).pop()
+    if 'counter' not in roles:
+        # the probe loop may also be a `for <counter> in range(<count>)`
+        for n in walk_local_ordered(g.node):
+            if isinstance(n, ast.For) and isinstance(n.target, ast.Name) and isinstance(n.iter, ast.Call) and norm(n.iter.func) == 'range' and 'REGISTER_BROADCASTS' in norm(n.iter):
+                roles['counter'] = n.target.id
+                # assigning to the variable of a `for` loop does not change how many trips remain: a rename that `restarts the
+                # count` this way gives the new name only the probes that were left over
+                dead = [st for st in ast.walk(n) if st is not n and ((isinstance(st, ast.Assign) and any(isinstance(t, ast.Name) and t.id == n.target.id for t in st.targets)) or (isinstance(st, ast.AugAssign) and isinstance(st.target, ast.Name) and st.target.id == n.target.id))]
+                if dead:
+                    raise StructuralViolation(g.module.rel, g.qual, norm(dead[0]), 'a rename restarts the probe count: the new name is probed three times before it is announced', f'`{norm(dead[0])}` assigns to the variable of `for {n.target.id} in {norm(n.iter)}`, which has no effect on the remaining trips -- a name chosen after k probes gets only 3 - k probes')
     for k in ('counter', 'next_time', 'now'):
         if k not in roles:
             raise AnalysisError(f'anchor vanished: {k} of the probe loop in {g.where()}')
